@@ -1161,6 +1161,10 @@ class Interp:
     def x_While(self, st):
         rule = self.loop_rule(st)
         if rule is not None:
+            if not hasattr(rule, "run_while"):
+                # the contract's loop rule was written for a `for` loop at this position: the code has another shape
+                # now - the rule does not apply (undecided), it is not a fault of the checker
+                raise Outside("loop rule registered for a for-loop, found a while-loop")
             return rule.run_while(self, st)
         n = 0
         while True:
@@ -1209,6 +1213,8 @@ class Interp:
         if hasattr(it, "as_sseq"):
             it = it.as_sseq()
         if rule is not None:
+            if not hasattr(rule, "run_for"):
+                raise Outside("loop rule registered for a while-loop, found a for-loop")
             return rule.run_for(self, st, it)
         if hasattr(it, "vfor"):
             return it.vfor(self, st)
@@ -1283,6 +1289,12 @@ class Interp:
 
     def e_IfExp(self, n):
         return self.eval(n.body) if self.truth(self.eval(n.test)) else self.eval(n.orelse)
+
+    def e_NamedExpr(self, n):
+        # (name := value): binds the name in the enclosing function scope and yields the value
+        v = self.eval(n.value)
+        self.assign(n.target, v)
+        return v
 
     def e_BoolOp(self, n):
         is_and = isinstance(n.op, ast.And)
